@@ -30,6 +30,7 @@ int check_residual(const slu_vt *vt, csc_q *F, dense_lu *D, const int_t *perm_r,
                    const void *X, int ldx, const void *B0, int ldb, int nrhs, double *worst_ratio, char *msg, size_t n);
 /* plain componentwise backward error max_i |b-op(F)x|_i / (|op(F)||x|+|b|)_i for column k */
 ld backward_error(const slu_vt *vt, csc_q *F, int op, const void *X, int ldx, const void *B0, int ldb, int k);
+ld backward_error_add(const slu_vt *vt, csc_q *F, int op, const void *X, int ldx, const void *B0, int ldb, int k, int *ntiny);
 
 void features_of_matrix(hx_matrix *M);
 void features_of_LU(dense_lu *D, const int_t *perm_r, const int_t *perm_c);
